@@ -281,6 +281,161 @@ func sentinelValue(v ssa.Value) bool {
 	return name == "errors.New" || name == "fmt.Errorf"
 }
 
+// (C5) region-after-lookup-miss, generalised.  The value whose nil test opens the region is
+//   - a map look-up (one result) whose key IS THE RESULT OF THE KEY CALL (the bare name; never a string
+//     built from it: a miss under name@revision does not say that no module of that name is loaded,
+//     seeded change C19-c1), possibly handed through: a phi all of whose edges are such, a parameter
+//     of a function all of whose calls are visible all of whose arguments are such, a result of such a
+//     function all of whose returned values are such; or
+//   - the result of a LOOK-UP HELPER: a function all of whose calls are visible, that writes nothing and
+//     calls nothing of the two packages, and every value it returns is nil, such a look-up (keys judged
+//     through the parameters as above), a phi of these, or a value returned below the non-nil branch of
+//     its own nil test (`if m := t[rev]; m != nil { return m }`).  Its result is nil only when the
+//     look-up under the bare name missed.
+//
+// The region itself is unchanged: the blocks of the named function dominated by the nil branch of a
+// test of that value alone against nil, when that branch has no other predecessor.
+func (a *analyzer) builtFromKeyCall(v ssa.Value, keyCall string, seen map[ssa.Value]bool) bool {
+	if seen[v] {
+		return true // a cycle of phis adds nothing
+	}
+	seen[v] = true
+	switch x := v.(type) {
+	case *ssa.Call:
+		if x.Call.IsInvoke() {
+			return x.Call.Method.Name() == keyCall
+		}
+		f := x.Call.StaticCallee()
+		if f == nil {
+			return false
+		}
+		if f.Name() == keyCall {
+			return true
+		}
+		return a.allResults(x, 0, func(r ssa.Value) bool { return a.builtFromKeyCall(r, keyCall, seen) })
+	case *ssa.Extract:
+		if c, ok := x.Tuple.(*ssa.Call); ok {
+			return a.allResults(c, x.Index, func(r ssa.Value) bool { return a.builtFromKeyCall(r, keyCall, seen) })
+		}
+	case *ssa.Phi:
+		for _, e := range x.Edges {
+			if !a.builtFromKeyCall(e, keyCall, seen) {
+				return false
+			}
+		}
+		return len(x.Edges) > 0
+	case *ssa.Parameter:
+		args, ok := a.bind[x]
+		if !ok || len(args) == 0 {
+			return false
+		}
+		for _, arg := range args {
+			if !a.builtFromKeyCall(arg, keyCall, seen) {
+				return false
+			}
+		}
+		return true
+	}
+	return false
+}
+
+// allResults: c is a static call of a function all of whose calls are visible and ok holds of every value it returns as result i.
+func (a *analyzer) allResults(c *ssa.Call, i int, ok func(ssa.Value) bool) bool {
+	rs := a.visibleResults(c, i)
+	if len(rs) == 0 {
+		return false
+	}
+	for _, r := range rs {
+		if !ok(r) {
+			return false
+		}
+	}
+	return true
+}
+
+func (a *analyzer) missValue(v ssa.Value, keyCall string, seen map[ssa.Value]bool) bool {
+	if seen[v] {
+		return true
+	}
+	seen[v] = true
+	switch x := v.(type) {
+	case *ssa.Lookup:
+		if x.CommaOk {
+			return false
+		}
+		if _, isMap := x.X.Type().Underlying().(*types.Map); !isMap {
+			return false
+		}
+		return a.builtFromKeyCall(x.Index, keyCall, map[ssa.Value]bool{})
+	case *ssa.Phi:
+		for _, e := range x.Edges {
+			if !isNilConst(e) && !a.missValue(e, keyCall, seen) {
+				return false
+			}
+		}
+		return len(x.Edges) > 0
+	case *ssa.Call:
+		f := x.Call.StaticCallee()
+		if f == nil || a.visible[f] == nil {
+			return false
+		}
+		if fi := a.byFn[f]; fi != nil {
+			for _, s := range fi.sites {
+				if s.kind == kWrite || s.kind == kCall {
+					return false // not a mere look-up
+				}
+			}
+		}
+		any := false
+		for _, b := range f.Blocks {
+			for _, ins := range b.Instrs {
+				r, isRet := ins.(*ssa.Return)
+				if !isRet || len(r.Results) == 0 {
+					continue
+				}
+				any = true
+				v := r.Results[0]
+				if isNilConst(v) || nonNilAt(v, b) {
+					continue // nil says nothing wrong; a value tested against nil on the way is not the nil result
+				}
+				if !a.missValue(v, keyCall, seen) {
+					return false
+				}
+			}
+		}
+		return any
+	}
+	return false
+}
+
+// nonNilAt: block b is dominated by the non-nil branch of a test of v alone against nil.
+func nonNilAt(v ssa.Value, b *ssa.BasicBlock) bool {
+	for _, c := range b.Parent().Blocks {
+		if len(c.Instrs) == 0 {
+			continue
+		}
+		iff, ok := c.Instrs[len(c.Instrs)-1].(*ssa.If)
+		if !ok {
+			continue
+		}
+		bo, ok := iff.Cond.(*ssa.BinOp)
+		if !ok || (bo.Op != token.NEQ && bo.Op != token.EQL) {
+			continue
+		}
+		if !((bo.X == v && isNilConst(bo.Y)) || (bo.Y == v && isNilConst(bo.X))) {
+			continue
+		}
+		nn := c.Succs[0]
+		if bo.Op == token.EQL {
+			nn = c.Succs[1]
+		}
+		if len(nn.Preds) == 1 && nn.Dominates(b) {
+			return true
+		}
+	}
+	return false
+}
+
 // computeAnchors: (C2); needs the call sites of collect().
 func (a *analyzer) computeAnchors() {
 	callers := map[*fnInfo]map[*fnInfo]bool{}
